@@ -144,6 +144,10 @@ class C14Src(SrcWorld, FaultOracle):
         if st.m["calls"] >= self.cfg.get("max_calls", 14):
             return []
         evs = [("tick",)]
+        if self.idle(st) and st.m["tid"] is not None and st.nput < self.cfg.get("max_tx", 1):
+            evs.append(("put", "valid"))  # a further transaction on the same handler
+        if self.cfg.get("user_cancel") and st.S.h.state.name == "BUSY" and st.m["tid"] is not None and not st.m.get("ucancel"):
+            evs.append(("cancel", "right"))
         step = st.S.h.states.step.name
         if step == "WAITING_FOR_EOF_ACK":
             evs.append(("ackeof",))
@@ -155,7 +159,22 @@ class C14Src(SrcWorld, FaultOracle):
 
     def update_model(self, st, ev, out):
         calls = st.m.get("calls", 0)
-        self.step_model(st, ev, out, self.idle(st))
+        if ev[0] == "put" and out.get("ret") is True:
+            st.m = self.fresh()  # per-transaction model
+            out["pre_m"] = dict(st.m)
+            out["viol"] = []
+        elif ev[0] == "cancel":
+            # Cancel.request is not a fault declaration (C12 judges it); the model notes that the EOF (cancel)
+            # exchange is running so that a fault during it is expected to abandon
+            ucancel = out.get("ret") is True
+            self.step_model(st, ev, out, self.idle(st))
+            if ucancel:
+                st.m["ucancel"] = True
+                if st.m["cancelled"] is None:
+                    st.m["cancelled"] = "CANCEL_REQUEST_RECEIVED"
+                    st.m["due"] = None
+        else:
+            self.step_model(st, ev, out, self.idle(st))
         st.m["calls"] = calls + 1
 
     def check(self, st, ev, out):
@@ -249,6 +268,12 @@ def configs(tier):
     for code in CODES:
         worlds.append(C14Src(scenario="src_ack_limit", mode="ack", size=3, seg=2, ack_limit=1, faults_s={"POSITIVE_ACK_LIMIT_REACHED": code}, max_calls=10))
         worlds.append(C14Src(scenario="src_check_limit", mode="unack", closure=True, size=3, seg=2, faults_s={"CHECK_LIMIT_REACHED": code}, max_calls=9))
+    # two transactions on one handler: the first ends by a user cancel or by the fault, the second meets the fault
+    for code in CODES:
+        worlds.append(C14Src(scenario="src_ack_limit_second_tx", mode="ack", size=3, seg=2, ack_limit=1, faults_s={"POSITIVE_ACK_LIMIT_REACHED": code},
+                             max_calls=16, max_tx=2, user_cancel=True))
+        worlds.append(C14Src(scenario="src_check_limit_second_tx", mode="unack", closure=True, size=3, seg=2, faults_s={"CHECK_LIMIT_REACHED": code},
+                             max_calls=14, max_tx=2, user_cancel=True))
     # --- receiver ---------------------------------------------------------------------------
     size = 3
     full = [("md",), ("fd", 0, 2, 0), ("fd", 2, 1, 0), ("eof", size, "NO_ERROR", 1), ("tick",), ("expire",)]
